@@ -24,7 +24,7 @@ RULE = (
     "kept linear in the positive class), unary signs at expression starts or parenthesised, 1-3 constraints, optional '=', forms "
     "str/list/dict/model-spec; negative class: deliberately non-linear trees. distinct = (tree shapes with leaves abstracted, form)"
 )
-ASSUMPTIONS = ["a unary sign directly after a binary operator ('x*-2') is lexically one operator token in this resolver; such strings are not generated"]
+ASSUMPTIONS = ["within one constraint the resolver gives unary signs the precedence of binary + and -: '-a*2' means -(a*2), which is the same affine map"]
 
 NAMES = ["x", "y", "z", "w w", "x[T.a]", "a:b", "C(A)[T.u]"]
 NUMS = [0, 1, 2, 3, 0.5, 2.5, 10, 1.25]
@@ -112,8 +112,11 @@ class G:
         if t in ("neg", "pos"):
             sign = "-" if t == "neg" else "+"
             inner = self.render(e[1], "un", False, lead=False)
-            if lead and parent in (None, "add", "sub") and not right and self.rng.random() < 0.7:
-                return sign + self.sp() + inner  # bare leading sign: binds to the first term only
+            if parent in (None, "add", "sub") and (lead or right or parent is None) and self.rng.random() < 0.7:
+                return sign + self.sp() + inner  # bare sign: at the start, after '=' / ',' or directly after a binary + or -
+            if parent in ("mul", "div") and right and self.rng.random() < 0.2:
+                self.sign_after_mul = True  # 'x * -2': rejected by the library (finding K7)
+                return sign + self.sp() + inner
             return "(" + sign + self.sp() + inner + ")"
         s = self.render(e[1], t, False, lead=lead) + self.sp() + SYM[t] + self.sp() + self.render(e[2], t, True, lead=False)
         if parent == "un" or (parent in PREC and (PREC[t] < PREC[parent] or (PREC[t] == PREC[parent] and right))):
@@ -138,7 +141,8 @@ def gen_case(rng: random.Random, tier: str) -> dict:
         cons.append([left, right])
     # a bare leading sign is only lexically safe at the very start of the specification or after '(' ('=-' and ',-'
     # are single operator tokens for this resolver, like 'x*-2')
-    strs = [g.render(left, lead=(i == 0)) + ((g.sp() + "=" + g.sp() + g.render(right, lead=False)) if right is not None else "")
+    g.sign_after_mul = False
+    strs = [g.render(left, lead=True) + ((g.sp() + "=" + g.sp() + g.render(right, lead=True)) if right is not None else "")
             for i, (left, right) in enumerate(cons)]
     form = rng.choice(["str", "list", "dict", "spec"])
     vals = [0] * ncon
@@ -147,7 +151,7 @@ def gen_case(rng: random.Random, tier: str) -> dict:
         if len(set(strs)) < len(strs):
             form = "list"
             vals = [0] * ncon
-    return {"cons": cons, "strs": strs, "form": form, "vals": vals, "sep": g.sp() + "," + g.sp()}
+    return {"cons": cons, "strs": strs, "form": form, "vals": vals, "sep": g.sp() + "," + g.sp(), "sign_after_mul": g.sign_after_mul}
 
 
 def gen_nonlinear(rng: random.Random, tier: str) -> dict:
@@ -185,7 +189,13 @@ def judge(case) -> Outcome:
     try:
         lc = compile_spec(case)
     except Exception as e:  # noqa: BLE001
-        out.fail("c16.linear_spec_rejected", f"{case['form']} {case['strs']}: {type(e).__name__}: {str(e)[:200]}")
+        import re
+
+        msg = str(e)
+        if case.get("sign_after_mul") and type(e).__name__ == "FormulaSyntaxError" and re.search(r"Operator `[*/][+\-]+` has insuffient arguments", msg):
+            out.fail("c16.sign_after_mul_rejected", f"{case['form']} {case['strs']}: a sign directly after * or / is rejected: {msg[:80]}")
+        else:
+            out.fail("c16.linear_spec_rejected", f"{case['form']} {case['strs']}: {type(e).__name__}: {msg[:200]}")
         return out
     A = np.asarray(lc.constraint_matrix, float)
     b = np.asarray(lc.constraint_values, float)
